@@ -30,6 +30,10 @@ func VxH_Map_race(opA, opB, tableLen, chain, minLen, mode int) {
 func VxH_MapOf_race(opA, opB, tableLen, chain, minLen, mode, slots0, slots1 int) {
 	m, c := vxArbMapOf[int, int](tableLen, chain, minLen, slots0, slots1, VxIntHasher, vxIntKey, vxIntVal)
 	kA, kB := VxInt("kA"), VxInt("kB")
+	if mode >= 10 {
+		VxAssume(kA == kB) // both threads address one key
+		mode -= 10
+	}
 	if mode >= 0 {
 		VxAssume(c.count() <= mode)
 	}
